@@ -446,6 +446,21 @@ impl World {
         ctl.spawn(actor, cmd, false).map_err(|e| e.to_string())
     }
 
+    /// As `start_m`, with a stdout that nobody reads until the returned gate is set.
+    pub fn start_m_gated(&mut self, actor: &str, args: &[String], points: &str, extra_env: &[(String, String)]) -> Result<(usize, std::sync::Arc<std::sync::atomic::AtomicBool>), String> {
+        let mut cmd = self.monorail_cmd(args);
+        let ctl = self.ctl.as_mut().ok_or("world has no controller")?;
+        cmd.env("MONORAIL_VERIF_CTL", &ctl.sock_path);
+        cmd.env("MONORAIL_VERIF_ACTOR", actor);
+        cmd.env("MONORAIL_VERIF_POINTS", points);
+        for (k, v) in extra_env {
+            cmd.env(k, v);
+        }
+        let gate = std::sync::Arc::new(std::sync::atomic::AtomicBool::new(false));
+        let id = ctl.spawn_gated(actor, cmd, false, Some(gate.clone())).map_err(|e| e.to_string())?;
+        Ok((id, gate))
+    }
+
     /// Route this world's monorail processes through the shim with a seeded getrandom(): the
     /// iteration order of std HashMap/HashSet (e.g. explicit -t targets) becomes a function of `seed`.
     pub fn set_rand_seed(&mut self, seed: u64) {
